@@ -9,6 +9,7 @@ import (
 	"strings"
 	"sync"
 	"syscall"
+	"time"
 
 	"verifharness/pkg/h"
 	"verifharness/verifsched"
@@ -144,6 +145,51 @@ func runCrashCase(c *h.Ctx, r *h.Report, cs crashCase) {
 	lastID := "?"
 	if err == nil {
 		lastID, _, _ = t2.GetSubscribers()
+		// the restarted hub itself must see that history: a replay from 'earliest' through the real
+		// transport returns exactly what is stored, and one more publication is appended after it
+		store, _ := mercure.NewTopicSelectorStoreLRU(0, 0)
+		replay := func() []string {
+			sub := mercure.NewLocalSubscriber("earliest", zapNop(), store)
+			sub.SetTopics([]string{"t0"}, nil)
+			if t2.AddSubscriber(sub) != nil {
+				return []string{"<AddSubscriber failed>"}
+			}
+			got := []string{}
+			for {
+				select {
+				case u, ok := <-sub.Receive():
+					if !ok {
+						return got
+					}
+					got = append(got, u.ID)
+				case <-time.After(150 * time.Millisecond):
+					sub.Disconnect()
+					t2.RemoveSubscriber(sub)
+
+					return got
+				}
+			}
+		}
+		if got := replay(); strings.Join(got, ",") != strings.Join(ids, ",") {
+			r.Violate(h.Violation{Key: "C09:restarted-hub-does-not-replay-the-stored-history",
+				What: fmt.Sprintf("after the kill the file holds %v but the restarted hub replays %v from 'earliest'", ids, got), Replay: rp})
+		}
+		next := fmt.Sprintf("u%d", len(ids)+1000)
+		if derr := t2.Dispatch(&mercure.Update{Topics: []string{"t0"}, Event: mercure.Event{ID: next, Data: "after restart"}}); derr == nil {
+			want := append(append([]string{}, ids...), next)
+			if cs.Size > 0 && len(want) > cs.Size {
+				want = want[len(want)-cs.Size:]
+			}
+			if got := replay(); strings.Join(got, ",") != strings.Join(want, ",") {
+				r.Violate(h.Violation{Key: "C09:publication-after-restart-not-appended",
+					What: fmt.Sprintf("after kill + restart the history was %v; publishing %s then gives %v, expected %v", ids, next, got, want), Replay: rp})
+			}
+			if l, _, _ := t2.GetSubscribers(); l != next {
+				r.Violate(h.Violation{Key: "C09:last-event-id-after-restart", What: fmt.Sprintf("after restart and one publication the hub reports %q, not %q", l, next), Replay: rp})
+			}
+		} else {
+			r.Violate(h.Violation{Key: "C09:publication-after-restart-refused", What: fmt.Sprintf("Dispatch after kill + restart: %v", derr), Replay: rp})
+		}
 		t2.Close()
 	} else {
 		r.Violate(h.Violation{Key: "C09:database-does-not-reopen", What: fmt.Sprintf("NewBoltTransport fails after a kill before %q: %v", killedBefore, err), Replay: rp})
@@ -221,7 +267,7 @@ func runCrashCase(c *h.Ctx, r *h.Report, cs crashCase) {
 }
 
 func runCrash(c *h.Ctx, r *h.Report) {
-	r.Rule = "the instrumented Bolt transport runs in a child process that publishes u1..uN (one '*' watcher logging deliveries, acknowledgements logged after Dispatch returns) and SIGKILLs itself when it reaches the k-th synchronisation point — every point inside and around every publish (closed test, lock, before the write transaction, before MatchAny, each step of the fan-out, …), retention off/on — and is also killed right after completing (no clean close). The parent reopens the file with bbolt and through NewBoltTransport: everything acknowledged or delivered is stored at its position (or legitimately discarded by retention), the stored keys are a contiguous run, the interrupted publish is wholly present or absent, the restarted hub reports the last stored id; and the exact stored content is compared with the model's crash+restart of the same execution. Kill points inside bbolt's commit are not reachable this way (bbolt's atomicity is assumed). Non-trivial = kill inside a publish; distinct by (retention, synchronisation point, some ack before)."
+	r.Rule = "the instrumented Bolt transport runs in a child process that publishes u1..uN (one '*' watcher logging deliveries, acknowledgements logged after Dispatch returns) and SIGKILLs itself when it reaches the k-th synchronisation point — every point inside and around every publish (closed test, lock, before the write transaction, before MatchAny, each step of the fan-out, …), retention off/on — and is also killed right after completing (no clean close). The parent reopens the file with bbolt and through NewBoltTransport: everything acknowledged or delivered is stored at its position (or legitimately discarded by retention), the stored keys are a contiguous run, the interrupted publish is wholly present or absent, the restarted hub reports the last stored id, replays exactly the stored history from 'earliest' and appends one more publication after it; and the exact stored content is compared with the model's crash+restart of the same execution. Kill points inside bbolt's commit are not reachable this way (bbolt's atomicity is assumed). Non-trivial = kill inside a publish; distinct by (retention, synchronisation point, some ack before)."
 	if c.Replay != "" {
 		var rp struct {
 			Case crashCase `json:"case"`
